@@ -31,10 +31,45 @@ def load_registry(prop):
     common.register(reg)
     mod = importlib.import_module('contracts.' + prop)
     mod.register(reg)
+    declare_heap_keys(reg)
+    return reg, mod
+
+
+def declare_heap_keys(reg):
+    """declare every heap component the declared types can touch, so that havocs (loops, calls) cover them and no component is
+    first materialised after a havoc"""
+    from pyvc.state import key_len, key_arr, key_dom, key_val, key_mem, key_card, key_alloc
+    seen = set()
+
+    def walk(t):
+        if t in seen:
+            return
+        seen.add(t)
+        k = t.kind
+        if k in ('list', 'seq'):
+            key_len(); key_arr(sort_of(t.args[0]))
+        elif k == 'dict':
+            key_dom(sort_of(t.args[0])); key_val(sort_of(t.args[0]), sort_of(t.args[1])); key_card()
+        elif k == 'set':
+            key_mem(sort_of(t.args[0])); key_card()
+        for a in t.args:
+            if hasattr(a, 'kind'):
+                walk(a)
+    key_alloc()
     for c in reg.classes.values():
         for f, ty in c.fields.items():
             key_fld(c.name, f, sort_of(ty))
-    return reg, mod
+            walk(ty)
+        for f, ty in c.consts.items():
+            walk(ty)
+    for c in reg.contracts.values():
+        for _, ty in c.params:
+            walk(ty)
+        walk(c.returns)
+        if c.generator is not None:
+            walk(c.generator)
+        for ty in c.types.values():
+            walk(ty)
 
 
 def run_native(code, timeout=120, args=()):
@@ -349,7 +384,9 @@ COMMON_ASSUMPTIONS = [
 
 
 def global_axioms(reg, ev):
-    return []
+    if not hasattr(reg, '_compiled_axioms'):
+        reg._compiled_axioms = specs.compile_axioms(reg, ev)
+    return reg._compiled_axioms
 
 
 def used_by(c, prop):
